@@ -710,6 +710,23 @@ class Table(Vector):
 		2. t[row_idx, :] = [values]  (Row assignment)
 		3. t[row_slice, col_slice] = other_table (Region assignment)
 		"""
+		# The addressed columns are written one after another. If a later column refuses
+		# its value, put the earlier ones back: a failed assignment changes nothing.
+		before = [(col, col._underlying, col._dtype, col._fp) for col in self._underlying]
+		try:
+			self._assign_cells(key, value)
+		except Exception:
+			from .alias_tracker import _ALIAS_TRACKER
+			for col, und, dtype, fp in before:
+				if col._underlying is not und:
+					_ALIAS_TRACKER.unregister(col, id(col._underlying))
+					col._underlying = und
+					_ALIAS_TRACKER.register(col, id(und))
+				col._dtype = dtype
+				col._fp = fp
+			raise
+
+	def _assign_cells(self, key, value):
 		row_spec, col_spec = None, None
 
 		# --- 1. Normalize Key ---
